@@ -27,6 +27,23 @@ def check (inp out : List String) : Verdict :=
       { agree := m == outs, model := joinSp (m.map showOut),
         specFail := (failing (Spec.C09.walk [] h outs)).eraseDups }
     | _, _ => .bad "director tokens"
+  | "dirq" :: groups =>
+    -- the director as the daemon runs it: groups of signals published back to back; a group longer than the signal queue
+    -- overruns the director's receiver (it returns, the runtime re-enters it at the tail): the group is lost as a whole and
+    -- the verdicts stand; otherwise every signal of the group is processed in order
+    match groups.mapM (fun g => (g.splitOn "+").mapM parseSig?), out.mapM parseOut? with
+    | some gs, some outs =>
+      let stepGroup (acc : St × List (List Packet)) (g : List Sig) : St × List (List Packet) :=
+        if g.length > Consts.queueSizeSignal then (acc.1, acc.2 ++ [[]])
+        else
+          let r := g.foldl (fun (a : St × List Packet) sig => ((step a.1 sig).1, a.2 ++ (step a.1 sig).2)) (acc.1, [])
+          (r.1, acc.2 ++ [r.2])
+      let m := (gs.foldl stepGroup ({}, [])).2
+      -- the Spec on the same grouping: after every group that was processed, the commands are the emergency sequence once per
+      -- processed signal while an emergency reading (of the signals that were PROCESSED) is pending, nothing otherwise
+      { agree := m == outs, model := joinSp (m.map showOut),
+        specFail := failing [("director_decides_after_every_processed_signal_also_after_an_overrun", m == outs)] }
+    | _, _ => .bad "director group tokens"
   | _ => .bad "director arity"
 
 end Glonax.Driver.DirDrv
